@@ -860,3 +860,15 @@ add("C07", "lock wait literal rendered with str()", G,
 add("C18", "constructor normalises qualifiers without is_table", SCHEMA,
     "            normalized_keys = [self._normalize_name(key, is_table=True) for key in keys]",
     "            *qualifiers, table_name = keys\n            normalized_keys = [self._normalize_name(key) for key in qualifiers]\n            normalized_keys.append(self._normalize_name(table_name, is_table=True))", "C18.e")
+
+add("C19", "distiller handed out by a memoised factory", DIFF,
+    "        edit_script = ChangeDistiller(**kwargs).diff(", "        edit_script = _distiller(**kwargs).diff(", "C19.h",
+    extra=[(DIFF, "\nclass ChangeDistiller:", "\nimport functools\n\n\n@functools.lru_cache(maxsize=None)\ndef _distiller(**kwargs):\n    return ChangeDistiller(**kwargs)\n\n\nclass ChangeDistiller:")])
+add("C10", "pseudo-column exclusion applied regardless of the dialect setting", "sqlglot/optimizer/qualify_columns.py",
+    "            if pseudocolumns and dialect.EXCLUDES_PSEUDOCOLUMNS_FROM_STAR:", "            if pseudocolumns:", "C10.f")
+add("C01", "generator stops consulting a dialect-overridden setting", G,
+    "        if not self.LOCKING_READS_SUPPORTED:\n            self.unsupported(\"Locking reads using 'FOR UPDATE/SHARE' are not supported\")\n            return \"\"\n", "", "C01.d")
+
+add("C13", "star position taken from the cursor after the modifiers were parsed", P,
+    "                rename=self._parse_star_op(\"RENAME\"),\n            )\n        ).update_positions(star_token)",
+    "                rename=self._parse_star_op(\"RENAME\"),\n            ),\n            token=self._prev,\n        )", "C13.h")
